@@ -24,3 +24,24 @@ def atmos(h):
 for _h, _t, _p, _r in TABLE:
     _pp, _rr, _tt = atmos(_h)
     assert abs(_tt - _t) < 0.01 and abs(_pp / _p - 1) < 2e-4 and abs(_rr / _r - 1) < 2e-4, (_h, _pp, _rr, _tt)
+
+KTS, FT = 0.514444, 0.3048
+A0 = math.sqrt(1.4 * RGAS * T0)
+
+
+def mach2tas(mach, h):
+    return mach * math.sqrt(1.4 * RGAS * atmos(h)[2])
+
+
+def mach2cas(mach, h):
+    """Compressible (isentropic) pitot relation, ICAO ISA; h in metres, result m/s."""
+    p = atmos(h)[0]
+    qc = p * ((1 + 0.2 * mach * mach) ** 3.5 - 1)
+    return A0 * math.sqrt(5 * ((qc / P0 + 1) ** (2 / 7.0) - 1))
+
+
+def cas2tas(cas, h):
+    p, rho, t = atmos(h)
+    qc = P0 * ((1 + 0.2 * (cas / A0) ** 2) ** 3.5 - 1)
+    mach = math.sqrt(5 * ((qc / p + 1) ** (2 / 7.0) - 1))
+    return mach * math.sqrt(1.4 * RGAS * t)
